@@ -261,7 +261,37 @@ class Tracer:
                 teye = tds.Teye
                 td = np.array([teye[i, i] for i in range(dae.n)]) if teye is not None and teye.size[0] == dae.n else Tm
                 mass_current = bool(np.array_equal(np.asarray(dae.Tf, dtype=float), Tm) and np.array_equal(td, Tm))
-            T.ev.append(dict(e="step", t=t, h=h, ret=bool(r), niter=int(tds.niter), conv=bool(tds.converged), mass_current=mass_current,
+            # the implicit rule recomputed from the values the step started from and ended with (not from the routine's own residual
+            # vector, whose rows are zeroed through the limiters' lists of pegged states): T (x1 - x0) = h (theta f1 + (1 - theta) f0)
+            # for every state that no anti-windup limiter reports as pegged now
+            rule_resid = None
+            if r and h > 0 and dae.n and not nan_state:
+                try:
+                    theta = 1.0 if tds.method.__class__.__name__.lower().startswith("back") else 0.5
+                    x1, f1 = np.array(dae.x), np.array(dae.f)
+                    Tf_ = np.asarray(dae.Tf, dtype=float)
+                    res = Tf_ * (x1 - x0) - h * (theta * f1 + (1 - theta) * f0)
+                    free = np.ones(dae.n, dtype=bool)
+                    for mdl in ss.exist.pflow_tds.values():
+                        if mdl.n == 0:
+                            continue
+                        for dsc in mdl.discrete.values():
+                            if hasattr(dsc, "x_set") and hasattr(dsc, "state") and hasattr(dsc, "zi"):
+                                a_ = np.asarray(dsc.state.a, dtype=int)
+                                zi_ = np.asarray(dsc.zi)
+                                if len(zi_) == len(a_):
+                                    free[a_[zi_ == 0]] = False
+                            elif dsc.__class__.__name__ in ("RateLimiter",) and hasattr(dsc, "u"):
+                                free[np.asarray(dsc.u.a, dtype=int)] = False
+                    scale = np.maximum(1.0, np.maximum(np.abs(Tf_ * x1), h * np.abs(f1)))
+                    q = np.abs(res) / scale
+                    q[~free] = 0.0
+                    q[Tf_ == 0] = 0.0
+                    k_ = int(np.argmax(q)) if len(q) else 0
+                    rule_resid = [float(q[k_]), str(dae.x_name[k_])] if len(q) else [0.0, ""]
+                except Exception:
+                    rule_resid = None
+            T.ev.append(dict(e="step", t=t, h=h, ret=bool(r), niter=int(tds.niter), conv=bool(tds.converged), mass_current=mass_current, rule_resid=rule_resid,
                              busted=bool(tds.busted), chatter=bool(tds.chatter), restored=restored,
                              inc_last=inc_last, tol=_f(T.tol0), max_iter=int(tds.config.max_iter),
                              nan_state=nan_state, planned_fail=bool(T._planned), last_conv=bool(tds.last_converged),
@@ -652,6 +682,7 @@ def encode_trace(res, tid, sc):
             out.append(dict(e=k, t=R(e["t"]), hsign=(0 if e["h"] == 0 else (1 if e["h"] > 0 else -1)),
                             ret=e["ret"], niter=min(e["niter"], 1000), cls=cls, conv=e["conv"], busted=e["busted"],
                             chatter=e["chatter"], restored=e["restored"], inc_ok=bool(inc_ok or e["chatter"]),
+                            rule_ok=bool(e.get("rule_resid") is None or e["chatter"] or e["rule_resid"][0] <= 50 * max(e["tol"], 1e-6)),
                             niter_le_max=bool(e["niter"] <= e["max_iter"] + 1), nan_state=e["nan_state"],
                             planned_fail=e["planned_fail"], last_conv=e["last_conv"], mass_current=e.get("mass_current", True)))
         elif k == "store":
